@@ -500,3 +500,64 @@ def generator_family(run, replay):
                           "indexes fresh, enumerations consistent; enumerator: count (2n-5)!! / (2n-3)!!, all binary, pairwise distinct",
                      assumptions=["two tips joined by one branch (unrooted generators with n = 2, balanced depth 1 unrooted) is outside the "
                                   "judged domain: only 'no crash' is claimed there", "gotree getters are trusted"])
+
+
+# ------------------------------------------------------------------------------------------------
+# C19: option defaults
+
+FLAGS_MODEL_CFG = """SPECIFICATION Spec
+CONSTANTS
+  Opts = {%s}
+  Cells = {%s}
+  Vals = {%s}
+INVARIANTS OmittedMeansDocumented NonInterference
+CHECK_DEADLOCK FALSE
+"""
+
+FLAGS_TRACE_CFG = """SPECIFICATION Spec
+POSTCONDITION Accepted
+CHECK_DEADLOCK FALSE
+"""
+
+
+@pipeline("C19")
+def flags_family(run, replay):
+    run.build_harness()
+    gotree = run.build_gotree()
+    if run.tier == "quick":
+        mcfg = FLAGS_MODEL_CFG % ("o1, o2, o3, o4", "c1, c2", "v1, v2")
+    else:
+        mcfg = FLAGS_MODEL_CFG % ("o1, o2, o3, o4, o5", "c1, c2, c3", "v1, v2, v3")
+    vk.run_model(run, "Flags", "Flags.tla", mcfg, workers=8, heap="6g")
+    shards = vk.NCPU
+
+    def job(i):
+        def f():
+            d = os.path.join(run.work, "fl-%d" % i)
+            os.makedirs(d, exist_ok=True)
+            path = os.path.join(d, "fl.ndjson")
+            s = vk.run_driver(run, ["flags", "--gotree", gotree, "--out", path, "--shard", str(i), "--nshards", str(shards)], path, timeout=1800)
+            r = vk.validate_trace(run, path, "TraceFlags.tla", FLAGS_TRACE_CFG)
+            r["summary"] = s
+            return r
+        return f
+    res = vk.parallel([job(i) for i in range(shards)])
+    collect(run, res)
+    nrun = sum(r["summary"].get("options_run", 0) for r in res)
+    run.traces = nrun
+    run.extra["options_in_registry"] = res[0]["summary"].get("options", 0)
+    run.extra["options_run_omitted_vs_documented_default"] = nrun
+    run.extra["static_mismatches_registry"] = sum(r["summary"].get("static_mismatches", 0) for r in res)
+    run.extra["compensated_static_mismatches"] = [n[1:3] for n in run.notes if n and n[0].startswith("DRIFT-COMPENSATED")]
+    for r in res[:2]:
+        run.samples += vk.sample_events(r["path"], 2)
+    if replay:
+        run.replay_of = replay
+    return vk.finish(run,
+                     rule="model: every registration table of the bound x every order of the registering initialisers (Flags.tla): omitting an "
+                          "option means its documented default iff options sharing a cell agree, non-interference; real code: the registry of "
+                          "the real CLI after package initialisation (every local and persistent option of every command) and, for every option, "
+                          "the command run with the option omitted and with the option given as the documented default (stdout, stderr, exit "
+                          "status and files compared); only a reproducible behavioural difference is a violation",
+                     assumptions=["--seed (documented as time dependent), --help, and the download/upload/completion/help commands are not run",
+                                  "commands are run on a two-tree Newick standard input; a command that fails identically both ways is not informative"])
